@@ -1,11 +1,12 @@
 #!/bin/bash
 # usage: tools/mutant_sweep.sh [tier] [Cxx ...]  — runs every mutant of the given properties (default: all) against its property's check;
+# merges into mutants/results-<tier>.tsv (rows of properties not re-run are kept)
 # writes mutants/results-<tier>.tsv (property, mutant, caught = 1 when the check exits 1 with a VIOLATION line).
 cd /verif
 T="${1:-quick}"; shift
 PROPS="${@:-$(ls mutants | grep '^C')}"
 OUT=mutants/results-$T.tsv
-: > $OUT
+touch $OUT
 for c in $PROPS; do
   for m in mutants/$c/*.diff; do
     n=$(basename $m .diff)
@@ -15,3 +16,13 @@ for c in $PROPS; do
     echo -e "$c\t$n\t$([ "$rc" = "1" ] && echo 1 || echo 0)\texit=$rc" | tee -a $OUT
   done
 done
+# keep the last result per (property, mutant); rows of mutants that were not re-run stay
+python3 - "$OUT" <<'PY'
+import sys
+rows = {}
+for l in open(sys.argv[1]):
+    p = l.rstrip("\n").split("\t")
+    if len(p) >= 3:
+        rows[(p[0], p[1])] = l.rstrip("\n")
+open(sys.argv[1], "w").write("\n".join(rows[k] for k in sorted(rows)) + "\n")
+PY
